@@ -420,7 +420,12 @@ func c16DenseN(c *Ctx, n int) {
 	// ---- mutate the bitmap: with doCopy=false nothing may write to the caller's words
 	bm := &BM{B: b, M: m, ZC: !doCopy}
 	for i := 0; i < 25 && !c.Failed(); i++ {
-		op := mutateStep(c, bm, MutOpts{Light: true, Sig: "FromDense/then-"})
+		var op string
+		if r.Chance(0.2) {
+			op = algebraStep(c, bm, "FromDense/then-")
+		} else {
+			op = mutateStep(c, bm, MutOpts{Light: true, Sig: "FromDense/then-"})
+		}
 		if c.Failed() {
 			break
 		}
